@@ -37,10 +37,12 @@ func init() {
 type side struct {
 	name string
 	eng  *live.Engine
-	mu   sync.Mutex // guards eng and sent (held across SendToTarget to keep the submission order)
-	gmu  sync.Mutex // guards got
+	mu   sync.Mutex // guards eng, got, sent, inflight (not held across SendToTarget: one sender per side keeps the submission order)
 	got  []string
 	sent []string
+	// inflight is the id being submitted right now: SendToTarget has been called and its outcome is not recorded yet
+	// (the message can be delivered to the other application before the sender gets to record it)
+	inflight string
 	opts live.Options
 	init bool
 }
@@ -163,13 +165,18 @@ func scenario(c *core.Ctx, r *core.Result, idx int, rng *rand.Rand, isolated boo
 				// (the lock is not held across the call: a wedged engine must not wedge the oracle; one sender per side keeps the order)
 				s.mu.Lock()
 				e := s.eng
+				if e != nil {
+					s.inflight = id
+				}
 				s.mu.Unlock()
 				if e != nil {
-					if err := quickfix.SendToTarget(m, e.SID); err == nil {
-						s.mu.Lock()
+					err := quickfix.SendToTarget(m, e.SID)
+					s.mu.Lock()
+					if err == nil {
 						s.sent = append(s.sent, id)
-						s.mu.Unlock()
 					}
+					s.inflight = ""
+					s.mu.Unlock()
 				}
 				time.Sleep(time.Duration(rr.Intn(sc.Pace)) * time.Millisecond)
 			}
@@ -244,11 +251,19 @@ func scenario(c *core.Ctx, r *core.Result, idx int, rng *rand.Rand, isolated boo
 			default:
 			}
 		}
+		// the deliveries are read first, the submissions afterwards: whatever has been delivered was submitted before
+		// that, so that in the second reading it is either accepted, refused, or the one submission still in flight
 		var got, sent [2][]string
+		var inflight [2]string
 		for i, s := range sides {
 			s.mu.Lock()
 			got[i] = append([]string{}, s.got...)
+			s.mu.Unlock()
+		}
+		for i, s := range sides {
+			s.mu.Lock()
 			sent[i] = append([]string{}, s.sent...)
+			inflight[i] = s.inflight
 			s.mu.Unlock()
 		}
 		// what side 0 sent must be what side 1 got, and vice versa
@@ -271,6 +286,11 @@ func scenario(c *core.Ctx, r *core.Result, idx int, rng *rand.Rand, isolated boo
 						break
 					}
 					pos++
+				}
+				if !found && x == inflight[i] {
+					// its submission has not returned yet: judged at the next reading
+					ok = false
+					break
 				}
 				if !found {
 					inSent := false
